@@ -29,6 +29,8 @@ def _init(mir, ent, crate):
 
 def compositions(k, allow_empty_edges=False):
     """all ways to cut k characters into non-empty chunks (lengths)"""
+    if k > 6:
+        raise ValueError("too many compositions")
     out = []
     for bits in range(1 << max(0, k - 1)):
         parts, cur = [], 1
@@ -43,6 +45,13 @@ def compositions(k, allow_empty_edges=False):
     if k == 0:
         out = [[]]
     return out
+
+
+def splits(n):
+    """chunkings of n characters: every composition for n <= 6, otherwise every two-way split plus one character per chunk"""
+    if n <= 6:
+        return [c for c in compositions(n) if len(c) > 1]
+    return [[i, n - i] for i in range(1, n)] + [[1] * n]
 
 
 def split(chars, lens):
@@ -98,7 +107,8 @@ def concrete_chars(chars, mo):
 
 def cfg_dict(cfg):
     return {"state": cfg.state, "exact_errors": cfg.exact_errors, "discard_bom": cfg.discard_bom, "profile": cfg.profile,
-            "last_start_tag": cfg.last_start_tag, "on_start": cfg.sink.on_start, "foreign": cfg.sink.foreign, "simd": cfg.simd}
+            "last_start_tag": cfg.last_start_tag, "on_start": cfg.sink.on_start, "foreign": cfg.sink.foreign, "simd": cfg.simd,
+            "dialect": getattr(cfg, "dialect", "html")}
 
 
 def mk_cfg(d, **kw):
@@ -108,7 +118,7 @@ def mk_cfg(d, **kw):
                    exact_errors=d["exact_errors"], discard_bom=d["discard_bom"],
                    profile=d["profile"], last_start_tag=d["last_start_tag"],
                    sink=tok.SinkCfg(on_start=_tup(d["on_start"]), foreign=d["foreign"]), simd=d.get("simd", True),
-                   chunks=d.get("chunks"), constraints=d.get("constraints", []))
+                   chunks=d.get("chunks"), constraints=d.get("constraints", []), dialect=d.get("dialect", "html"))
 
 
 def _tup(x):
@@ -132,6 +142,11 @@ def unit_diff(args):
             extra.append(chars[i] == v)
         if args.get("forbid_first") is not None and chars:
             extra.append(chars[0] != args["forbid_first"])
+        if args.get("prefix"):
+            chars = list(args["prefix"]) + chars
+        suffix = list(args.get("suffix") or [])
+        nsym = len(chars)
+        chars = chars + suffix
         base = dict(args["base"])
         base["state"] = _tup(args["state"])
         stats = {}
@@ -148,6 +163,8 @@ def unit_diff(args):
                 v = dict(base)
                 v.update(over)
                 vchars = chars[vopt.get("skip", 0):]
+                if lens is not None and suffix:
+                    lens = list(lens) + [len(suffix)]
                 chunks = split(vchars, lens) if lens is not None else None
                 if not args.get("compare", True):
                     if a is not A[0]:
@@ -308,7 +325,8 @@ def explore_ref(cfgd, chars, constraints, entities, stats):
 
 def unit_c01(args):
     t0 = time.time()
-    res = {"unit": "C01 %s k=%d cls=%s" % (tok.state_spec(_tup(args["state"])), args["k"], args.get("classes")),
+    res = {"unit": "C01 %s %r+k=%d+%r cls=%s" % (tok.state_spec(_tup(args["state"])), "".join(map(chr, args.get("prefix") or [])), args["k"],
+                                                  "".join(map(chr, args.get("suffix") or [])), args.get("classes")),
            "paths": 0, "queries": 0, "obligations": 0, "violations": [], "panics": [], "errors": [], "livelock": 0}
     try:
         k = args["k"]
@@ -317,7 +335,7 @@ def unit_c01(args):
         for i, (lo, hi) in enumerate(args.get("char_ranges") or []):
             if lo is not None:
                 cons.append(z3.And(z3.UGE(chars[i], lo), z3.ULE(chars[i], hi)))
-        allch = list(prefix) + chars
+        allch = list(prefix) + chars + list(args.get("suffix") or [])
         base = dict(args["base"])
         base["state"] = _tup(args["state"])
         stats = {}
